@@ -60,6 +60,8 @@ fn transformer(c: &str) -> Value {
         "null_type" => json!({"type": null, "options": null}),
         "replace_no_with" => json!({"type": "replace", "options": {"something": "a"}}),
         "replace_empty" => json!({"type": "replace", "options": {"something": "", "with": "zz"}}),
+        // (the ordinary transformer of a placeholder-shaped capture keeps its letters as they are)
+        "keep_case" => json!({"type": "lowercase", "options": null}),
         _ => json!({"type": "uppercase", "options": null}),
     }
 }
@@ -126,16 +128,18 @@ fn rule_for(call: &Value) -> Value {
     };
     json!({
         "id": "r", "rank": rank,
-        "markers": [{"name": "m", "regex": marker_regex, "transformers": [transformer(cls(call, "transformer"))]}, {"name": "h", "regex": "[^.]+", "transformers": [transformer(cls(call, "transformer"))]}],
+        "markers": [{"name": "m", "regex": marker_regex, "transformers": [transformer(if cls(call, "transformer").is_empty() && cls(call, "capture").contains("placeholder") { "keep_case" } else { cls(call, "transformer") })]}, {"name": "h", "regex": "[^.]+", "transformers": [transformer(if cls(call, "transformer").is_empty() && cls(call, "capture").contains("placeholder") { "keep_case" } else { cls(call, "transformer") })]}],
         "source": {"host": "@h.example.com", "path": path, "query": query, "headers": header_trigger, "ips": ips, "datetime": datetime, "time": time, "weekdays": weekdays,
                    "response_status_codes": on_codes, "sampling": sampling},
         "status_code": status, "target": target, "header_filters": header_filter, "body_filters": body_filter,
-        "variables": [{"name": "host", "type": "request_host", "transformers": [transformer(cls(call, "transformer"))]}, {"name": "hd", "type": {"request_header": {"name": "X-K", "default": null}}}],
+        "variables": [{"name": "m", "type": {"marker": "m"}}, {"name": "h", "type": {"marker": "h"}}, {"name": "host", "type": "request_host", "transformers": [transformer(if cls(call, "transformer").is_empty() && cls(call, "capture").contains("placeholder") { "keep_case" } else { cls(call, "transformer") })]}, {"name": "hd", "type": {"request_header": {"name": "X-K", "default": null}}}],
     })
 }
 
 fn capture_value(c: &str) -> String {
-    match c { "two_byte" => "\u{e9}\u{e9}\u{e9}".to_string(), "four_byte" => "\u{1F600}\u{1F600}".to_string(), "empty" => "".to_string(), "long" => "z".repeat(5000), _ => "abcdef".to_string() }
+    match c { "two_byte" => "\u{e9}\u{e9}\u{e9}".to_string(), "four_byte" => "\u{1F600}\u{1F600}".to_string(), "empty" => "".to_string(), "long" => "z".repeat(5000),
+        // a captured value that spells the placeholder of its own marker ("@m" in the path, "@h" in the host), or of the other one
+        "own_placeholder" => "x-@m-@h-y".to_string(), "other_placeholder" => "@hh@mm".to_string(), _ => "abcdef".to_string() }
 }
 
 fn request_for(call: &Value, config: &RouterConfig) -> Request {
@@ -147,7 +151,8 @@ fn request_for(call: &Value, config: &RouterConfig) -> Request {
     };
     let host = match cls(call, "request_host") {
         "none" => None, "empty" => Some("".to_string()), "upper" => Some("ABC.EXAMPLE.COM".to_string()), "unicode" => Some("\u{e9}\u{e9}.example.com".to_string()), "with_port" => Some("abc.example.com:8080".to_string()),
-        _ => Some(format!("{}.example.com", if cap.is_empty() { "abc".to_string() } else { cap })),
+        // ('@' cannot be part of a host name: placeholder-shaped captures travel in the path only)
+        _ => Some(format!("{}.example.com", if cap.is_empty() || cap.contains('@') { "abc".to_string() } else { cap })),
     };
     let misc = cls(call, "request_misc");
     let mut req = Request::from_config(config, path, host, if misc == "no_scheme" { None } else if misc == "ftp_scheme" { Some("ftp".to_string()) } else { Some("http".to_string()) },
@@ -189,11 +194,17 @@ fn pipeline(call: &Value) {
     let traces = router.trace_request(&req);
     let _ = serde_json::to_string(&router.get_trace(&req));
     let _ = TraceAction::from_trace_rules(&traces, &req);
+    if std::env::var("TOTAL_DEBUG").is_ok() {
+        eprintln!("debug: path={:?} host={:?} routes={} rule={}", req.path_and_query(), req.host, routes.len(), rule_json);
+    }
     let mut action = Action::from_routes_rule(routes, &req, None);
     let (code, headers) = response_for(call);
     let _ = action.get_status_code(0, None);
     let _ = action.get_status_code(code, None);
     let out_headers = action.filter_headers(headers.clone(), code, true, None);
+    if std::env::var("TOTAL_DEBUG").is_ok() {
+        eprintln!("debug: out headers {:?}", out_headers.iter().map(|h| format!("{}: {}", h.name, h.value)).collect::<Vec<String>>());
+    }
     let _ = redirectionio::http::Header::create_header_map(out_headers);
     let body = body_of(cls(call, "body"));
     if let Some(mut f) = action.create_filter_body(code, &headers) {
